@@ -37,14 +37,15 @@ DOCS = {
     'entity-inline': '[a](/u&copy "t&copy") &copy\n',
     'entity-info': '```&copy\nx\n```\n',
     'quote-setext': '> quote\n\nTitle\n===\n\n> Title\n> ===\n',
+    'toc-ref': '# t\n\n## [l] x\n\n## y [r]\n',
     'ext': '$x$ [[a|b]] {{m}}\ntext\n{{/m}}\n\n- item\n  > q `c`\n',
 }
 RENDER_CONFIGS = [
     ('Html', {}), ('Html', {'process_html_tokens': False}), ('Markdown', {}), ('Markdown', {'max_line_length': 20}), ('LaTeX', {}), ('Ast', {}),
     ('Toc', {}), ('GithubWiki', {}), ('MathJax', {}), ('Pygments', {}), ('Jira', {}), ('XWiki20', {}),
 ]
-QUICK_CONFIGS = [('Html', {}), ('Markdown', {}), ('LaTeX', {}), ('XWiki20', {})]
-QUICK_DOCS = ['code', 'setext', 'custom-tag', 'html-interrupt', 'quote-setext', 'empty-atx', 'entity-def', 'entity-inline']
+QUICK_CONFIGS = [('Html', {}), ('Markdown', {}), ('LaTeX', {}), ('XWiki20', {}), ('Toc', {})]
+QUICK_DOCS = ['code', 'setext', 'custom-tag', 'html-interrupt', 'quote-setext', 'empty-atx', 'entity-def', 'entity-inline', 'toc-ref']
 
 
 class Boom(Exception):
@@ -136,15 +137,45 @@ from rtmon.props import c11
 out = {}
 try:
     if job['kind'] == 'render':
-        out['value'] = mt.render(c11.DOCS[job['doc']], job['renderer'], **job['opts'])
+        out['value'] = c11.render_value(c11.DOCS[job['doc']], job['renderer'], job['opts'])
     elif job['kind'] == 'bare':
         out['value'] = json.dumps(tree.canon(mt.Document(c11.DOCS[job['doc']]), lines=True), sort_keys=True, default=repr)
     elif job['kind'] == 'scheme':
         out['value'] = repr(c11.scheme_session())
+    elif job['kind'] == 'toc':
+        out['value'] = c11.toc_value(c11.DOCS[job['doc']], None)
 except Exception as e:
     out['value'] = 'EXC ' + type(e).__name__
 print(json.dumps(out))
 '''
+
+
+def render_value(doc_text, rname, opts):
+    """What a caller observes from one renderer session: the output, and for TocRenderer also its table of contents
+    (built by tokenizing the collected heading texts outside of any Document)."""
+    cls = mt.renderer_class(rname)
+    with cls(**opts) as r:
+        val = r.render(Document(doc_text))
+        if rname == 'Toc':
+            try:
+                toc = json.dumps(tree.canon(r.toc), sort_keys=True, default=repr)
+            except Exception as e:  # noqa  (no qualifying heading: IndexError, also in a fresh process)
+                toc = 'EXC ' + type(e).__name__
+            val += '\n--toc--\n' + toc
+    return val
+
+
+def toc_value(doc_text, between):
+    """TocRenderer session: render a document, optionally do something else (``between``), then read the table of contents."""
+    from mistletoe.contrib.toc_renderer import TocRenderer
+    with TocRenderer() as r:
+        r.render(Document(doc_text))
+        if between is not None:
+            between(r)
+        try:
+            return json.dumps(tree.canon(r.toc), sort_keys=True, default=repr)
+        except Exception as e:  # noqa
+            return 'EXC ' + type(e).__name__
 
 
 def job_key(job):
@@ -159,6 +190,7 @@ def all_jobs(tier):
             jobs.append({'kind': 'render', 'doc': d, 'renderer': r, 'opts': o})
         jobs.append({'kind': 'bare', 'doc': d})
     jobs.append({'kind': 'scheme'})
+    jobs.append({'kind': 'toc', 'doc': 'toc-ref'})
     return jobs
 
 
@@ -246,10 +278,8 @@ def run_step(step):
     obs = []
     kind = step['kind']
     if kind == 'render':
-        cls = mt.renderer_class(step['renderer'])
         try:
-            with cls(**step['opts']) as r:
-                val = r.render(Document(DOCS[step['doc']]))
+            val = render_value(DOCS[step['doc']], step['renderer'], step['opts'])
         except Exception as e:  # noqa
             val = 'EXC ' + type(e).__name__
         obs.append(({'kind': 'render', 'doc': step['doc'], 'renderer': step['renderer'], 'opts': step['opts']}, val))
@@ -310,6 +340,27 @@ def run_step(step):
             except Exception as e:  # noqa
                 obs.append(('fault-fired', type(e).__name__))
             obs.append(('reset', defaults_ok()))
+    elif kind == 'toc-after-abort':
+        # inside one TocRenderer session: render, then a parse that is aborted by a raising custom token, then read .toc
+        F, module = fault_token(step['fault'])
+
+        def between(r):
+            module.add_token(F, min(step['pos'], len(module._token_types) - (1 if module is span_token else 0)))
+            try:
+                Document(TRIGGERS[step['place']])
+                obs.append(('fault-fired', False))
+            except Boom:
+                obs.append(('fault-fired', True))
+            except Exception as e:  # noqa
+                obs.append(('fault-fired', type(e).__name__))
+            finally:
+                module.remove_token(F)
+        try:
+            val = toc_value(DOCS['toc-ref'], between)
+        except Exception as e:  # noqa
+            val = 'EXC ' + type(e).__name__
+        obs.append(({'kind': 'toc', 'doc': 'toc-ref'}, val))
+        obs.append(('reset', defaults_ok()))
     elif kind == 'deep':
         # a parse that ends in RecursionError (nesting > 100) inside quote content
         try:
@@ -448,6 +499,8 @@ def step_name(s):
         return 'render(%s,%s)' % (s['renderer'], s['doc'])
     if s['kind'] == 'bare':
         return 'parse(%s)' % s['doc']
+    if s['kind'] == 'toc-after-abort':
+        return 'toc-after-abort(%s@%s,%s)' % (s['fault'], s['pos'], s['place'])
     if s['kind'] == 'fault':
         return 'fault(%s@%s,%s,%s%s%s)' % (s['fault'], s['pos'], s['place'], s['renderer'] or 'bare', '-no-html-tokens' if s['opts'] else '',
                                            ',caught' if s.get('caught') else '')
@@ -478,6 +531,8 @@ def quick_alphabet():
     steps.append({'kind': 'fault', 'fault': 'span-find', 'pos': 4, 'place': 'top', 'renderer': 'Ast', 'opts': {}})
     steps.append({'kind': 'fault', 'fault': 'block-start', 'pos': 0, 'place': 'quote-later', 'renderer': 'Html', 'opts': {'process_html_tokens': False}})
     steps.append({'kind': 'fault', 'fault': 'span-find', 'pos': 5, 'place': 'quote', 'renderer': 'Html', 'opts': {}, 'caught': True, 'then': 'code'})
+    steps.append({'kind': 'toc-after-abort', 'fault': 'span-find', 'pos': 5, 'place': 'top'})
+    steps.append({'kind': 'toc-after-abort', 'fault': 'block-start', 'pos': 0, 'place': 'quote-later'})
     return steps
 
 
@@ -490,6 +545,9 @@ def full_alphabet():
         steps.append({'kind': 'bare', 'doc': d})
     steps.append({'kind': 'scheme'})
     steps.append({'kind': 'deep'})
+    for f in FAULT_KINDS:
+        for place in TRIGGERS:
+            steps.append({'kind': 'toc-after-abort', 'fault': f, 'pos': 5 if f.startswith('span') else 0, 'place': place})
     for f in FAULT_KINDS:
         for place in TRIGGERS:
             for r, o in ((None, {}), ('Html', {}), ('Markdown', {}), ('LaTeX', {}), ('XWiki20', {}), ('Ast', {}), ('Html', {'process_html_tokens': False})):
